@@ -131,6 +131,11 @@ def main(argv=None):
             traceback.print_exc()
             print(f"CHECKER-ERROR property={prop} deductive tier crashed")
             return 3
+    if a.update_baseline and d is None:
+        return 0
+    if d is None and a.no_b:
+        print(f"CHECKER-ERROR property={prop}: nothing to run")
+        return 3
     if d is not None:
         dsum = summarize_D(prop, d, lock)
         if a.update_baseline:
